@@ -403,12 +403,7 @@ func (ctx *Context) evaluate() {
 	// ctx := &e.Context
 	var details []BufferSpan
 	numOpCountAdd := func(count IntType) bool {
-		const maxCount = IntType(^uint(0) >> 1)
-		if count > 0 && e.NumOpCount > maxCount-count {
-			e.NumOpCount = maxCount // 饱和，避免溢出后变成负数绕过上限
-		} else {
-			e.NumOpCount += count
-		}
+		e.NumOpCount = opCountAdd(e.NumOpCount, count) // 饱和，避免溢出后变成负数绕过上限
 		if ctx.Config.OpCountLimit > 0 && e.NumOpCount > ctx.Config.OpCountLimit {
 			ctx.Error = errors.New("允许算力上限")
 			return true
